@@ -101,9 +101,7 @@ theorem walk_law_converges (k : Nat) (ε : Rat) (hε : 0 < ε) :
   linarith
 
 example : hit 1 - reachBy 3 20 2 ≤ rho 3 ^ 20 * 3 ∧ hit 1 - reachBy 3 20 2 = 1 / 1572864 := by
-  constructor
-  · exact (walk_law_gap 1 20).1
-  · decide +kernel
+  decide +kernel
 
 /-! ### the estimator -/
 
